@@ -197,6 +197,8 @@ def enumerate_cases(tier, scope):
                 yield {'shape': manual, 'instance': {'cls': 'C1', 'members': members}, 'loader': loader, 'load_with': load_with, 'redefine': True, 'strict': True}
     yield {'shape': shape, 'instance': {'cls': 'C2', 'members': {'m0': ['val', 1], 'm1': ['val', 2], 'm2': ['val', 3]}}, 'loader': 'default', 'load_with': 'none', 'tamper': 'pv.gen_classes:DoesNotExist'}
     yield {'shape': shape, 'instance': {'cls': 'C2', 'members': {'m0': ['val', 1], 'm1': ['val', 2], 'm2': ['val', 3]}}, 'loader': 'default', 'load_with': 'none', 'tamper': 'no-colon-here'}
+    yield {'shape': shape, 'instance': {'cls': 'C2', 'members': {'m0': ['val', 1], 'm1': ['val', 2], 'm2': ['val', 3]}}, 'loader': 'default', 'load_with': 'none', 'tamper': 'pv.broken_import:Thing'}
+    yield {'shape': shape, 'instance': {'cls': 'C2', 'members': {'m0': ['val', 1], 'm1': ['val', 2], 'm2': ['val', 3]}}, 'loader': 'default', 'load_with': 'none', 'tamper': 'nomodule.xyz:Thing'}
     yield {'shape': shape, 'instance': {'cls': 'C2', 'members': {'m0': ['val', 1], 'm1': ['val', 2], 'm2': ['val', 3]}}, 'loader': 'persave', 'load_with': 'none', 'tamper': 'tag!pv.gen_classes:DoesNotExist'}
 
 
@@ -265,7 +267,7 @@ def _cases(draw, tier):
         'load_with': draw(st.sampled_from(['none', 'none', 'ctx'])),
     }
     if draw(st.integers(0, 9)) == 0:
-        case['tamper'] = draw(st.sampled_from(['pv.gen_classes:DoesNotExist', 'no-colon-here', 'nomodule.xyz:Thing']))
+        case['tamper'] = draw(st.sampled_from(['pv.gen_classes:DoesNotExist', 'no-colon-here', 'nomodule.xyz:Thing', 'pv.broken_import:Thing']))
     case['ctx_extend'] = draw(st.booleans())
     case['redefine'] = draw(st.integers(0, 3)) == 0
     case['strict'] = draw(st.booleans())
